@@ -21,7 +21,7 @@ Proof. vm_compute. reflexivity. Qed.
 
 (* ... which add_cell refuses, so the reader refuses the file *)
 Example hexbad_rejected :
-  mesh_add_cell hex_check_opts (m_faces ex_hex) [5; 0; 3; 7; 9; 11] = Ret None /\
+  mesh_add_cell hex_check_opts (m_edges ex_hex) (m_faces ex_hex) [5; 0; 3; 7; 9; 11] = Ret None /\
   decode_impl hex_check_opts (encode 3 2 ex_hexbad) = RErr RR_InvalidFile S_ErrorInvalidFile.
 Proof. split; vm_compute; reflexivity. Qed.
 
